@@ -277,7 +277,7 @@ func oracle(jobs []ajob, ds []pdiag) []string {
 	}
 	for p := range got {
 		if !want[p] {
-			fails = append(fails, fmt.Sprintf("reference reported as unresolved although it resolves or does not exist: job %q (line %d) needs %q", p.id, p.line, p.dep))
+			fails = append(fails, fmt.Sprintf("pair reported as unresolved that is not an unresolved reference of the graph: job %q (line %d) needs %q", p.id, p.line, p.dep))
 		}
 	}
 	if len(want) > 0 {
